@@ -247,3 +247,46 @@ def constructor_contract(reg, PROP, tree, file, cls, builder, label=None, recv="
         ensures=[("established", rebuilt_after_writes(label, sorted(depends), recv=recv, name='coherence.__init__.%s' % label, strict=True))],
         note='constructor of %s must leave %s consistent with %s' % (cls, label, sorted(depends)))
     return 1
+
+
+def bounded_conversions(ctx):
+    """Bounded stand-in (NOT a proof) for cherab/core/utility/conversion.py (used by the beam, rate and parser properties): every conversion
+    class against an independent formula with CODATA constants, forward and inverse, on scalars and arrays, incl. round trips."""
+    from replaylib.native import run_native
+    code = '''
+import numpy as np, random
+from cherab.core.utility import conversion as C
+e, amu, h, c = 1.602176634e-19, 1.66053906660e-27, 6.62607015e-34, 299792458.0
+rnd = random.Random(4)
+bad = []; cases = 0
+def close(a, b): return np.allclose(a, b, rtol=1e-7, atol=0)      # CODATA revisions differ at the 1e-9 level
+for trial in range(60):
+    x = rnd.choice([rnd.uniform(1e-3, 1e6), np.array([rnd.uniform(1e-3, 1e6) for _ in range(3)])]); w = rnd.uniform(100, 2000)
+    checks = [("EvAmuToMS.to", C.EvAmuToMS.to(x), np.sqrt(2 * np.asarray(x) * e / amu)), ("EvAmuToMS.inv", C.EvAmuToMS.inv(x), np.asarray(x) ** 2 * amu / (2 * e)),
+              ("PhotonToJ.to", C.PhotonToJ.to(x, w), np.asarray(x) * h * c / (w * 1e-9)), ("PhotonToJ.inv", C.PhotonToJ.inv(x, w), np.asarray(x) * (w * 1e-9) / (h * c)),
+              ("AmuToKg.to", C.AmuToKg.to(x), np.asarray(x) * amu), ("AmuToKg.inv", C.AmuToKg.inv(x), np.asarray(x) / amu),
+              ("EvToJ.to", C.EvToJ.to(x), np.asarray(x) * e), ("EvToJ.inv", C.EvToJ.inv(x), np.asarray(x) / e),
+              ("Cm3ToM3.to", C.Cm3ToM3.to(x), np.asarray(x) * 1e-6), ("Cm3ToM3.inv", C.Cm3ToM3.inv(x), np.asarray(x) * 1e6),
+              ("PerCm3ToPerM3.to", C.PerCm3ToPerM3.to(x), np.asarray(x) * 1e6), ("PerCm3ToPerM3.inv", C.PerCm3ToPerM3.inv(x), np.asarray(x) * 1e-6),
+              ("AngstromToNm.to", C.AngstromToNm.to(x), np.asarray(x) * 0.1), ("AngstromToNm.inv", C.AngstromToNm.inv(x), np.asarray(x) * 10.0),
+              ("EvAmuToMS round trip", C.EvAmuToMS.inv(C.EvAmuToMS.to(x)), np.asarray(x)), ("PhotonToJ round trip", C.PhotonToJ.inv(C.PhotonToJ.to(x, w), w), np.asarray(x))]
+    for name, got, want in checks:
+        cases += 1
+        if not close(got, want):
+            bad.append({"conversion": name, "x": np.asarray(x).tolist(), "got": np.asarray(got).tolist(), "expected": np.asarray(want).tolist()})
+    # the conversions are pure functions of their arguments: a value close to an earlier result must not be "snapped" to it
+    for delta in (0.0, 1e-9, 1e-6, -3e-6, 4e-5):
+        E = rnd.uniform(1e3, 1e5); v = C.EvAmuToMS.to(E); vv = v * (1 + delta); cases += 1
+        got = C.EvAmuToMS.inv(vv); want = vv ** 2 / C.EvAmuToMS.conversion_factor
+        if not np.allclose(got, want, rtol=1e-12, atol=0):
+            bad.append({"conversion": "EvAmuToMS.inv after EvAmuToMS.to(%r)" % E, "x": vv, "got": float(got), "expected": float(want)})
+        p = C.PhotonToJ.to(E, w); pp = p * (1 + delta); cases += 1
+        got = C.PhotonToJ.inv(pp, w); want = pp * w / C.PhotonToJ.conversion_factor
+        if not np.allclose(got, want, rtol=1e-12, atol=0):
+            bad.append({"conversion": "PhotonToJ.inv after PhotonToJ.to", "x": pp, "got": float(got), "expected": float(want)})
+    if bad: break
+print(json.dumps({"cases": cases, "bad": bad[:4]}))
+'''
+    out = run_native(ctx, code, timeout=300)
+    return {'name': 'unit conversions vs independent formulas with CODATA 2018 constants (BOUNDED stand-in, not counted as proved)',
+            'ok': bool(out) and out.get('bad') == [], 'detail': out, 'covers': ['conversion'], 'bound': '60 random scalars / arrays per conversion, fixed seed'}
